@@ -80,7 +80,7 @@ def _explore_proc(args):
 def _pack(r, recs):
     return dict(key=r.key, status=r.status, reason=r.reason, obligations=recs,
                 paths=r.paths, exits=r.exits, sha=r.sha, file=r.file, lineno=r.lineno,
-                time=round(r.time, 3))
+                time=round(r.time, 3), used=list(getattr(r, 'used', []) or []))
 
 
 def run_functions(keys, tier, extra=None, procs=None, expected_fail=()):
@@ -474,6 +474,28 @@ def run_bounded(pid, tier, seed):
     return out
 
 
+def _callees(results, keys):
+    """Contracts the verified functions of this property rely on at their call sites: externs (assumed) and
+    repository functions verified elsewhere or under this same property (modular: caller sees the contract only)."""
+    used = set()
+    for r in results:
+        used.update(r.get('used') or [])
+    out = []
+    for k in sorted(used):
+        c = R.CONTRACTS.get(k)
+        if c is None:
+            continue
+        if c.kind == 'extern':
+            out.append(dict(callee=k, status='assumed (extern contract)', notes=(c.notes or '')[:200]))
+        elif not c.verify:
+            out.append(dict(callee=k, status='trusted repository function (contract not verified)'))
+        elif k in keys:
+            out.append(dict(callee=k, status='verified under this property'))
+        else:
+            out.append(dict(callee=k, status='verified under ' + ', '.join(c.props) if c.props else 'contract not attached to a property'))
+    return out
+
+
 def build_evidence(pid, tier, seed, results, total, discharged, backends, solver_time, known_lines,
                    violations, undecided_funcs, undecided, errors, bounded, wall):
     funcs = []
@@ -491,9 +513,14 @@ def build_evidence(pid, tier, seed, results, total, discharged, backends, solver
         obligations=total, discharged=discharged,
         checker_cmd='./check %s --tier %s' % (pid, tier),
         trusted_base=['pyvc symbolic executor (CPython semantics as encoded in /verif/pyvc)',
+                      'Python ints as mathematical integers (exact: CPython ints are unbounded); floats as reals '
+                      '(rounding not modelled); str/bytes as SMT strings',
                       'list/set/dict/string axiom prelude (/verif/pyvc/builtins.py)',
-                      'assumed contracts of external dependencies (/verif/contracts/prelude.py)',
+                      'assumed contracts of external dependencies and of repository functions that are not verified '
+                      'under this property (see callees_assumed)',
+                      'gevent cooperative scheduling: no preemption between yield points (G2)',
                       'z3 5.1.0', 'cvc5 1.0.3'],
+        callees_assumed=_callees(results, [r['key'] for r in results]),
         functions_under_contract=funcs, backends=backends, solver_seconds=round(solver_time, 3),
         samples=samples[:12], known_findings=known_lines,
         undecided=[dict(function=r['key'], reason=r['reason']) for r in undecided_funcs] +
